@@ -86,13 +86,15 @@ def contains_call(t, tag, recv=None):
     return any(contains_call(x, tag, recv) for x in t if isinstance(x, tuple))
 
 
-def r_append(F, R, cat=None):
+def r_append(F, R, cat=None, only=None):
     cat = cat or Catalogue(F)
     peel = None
     nb = 0
     neff = 0
     for b in write_bodies(F):
         if not b.return_blocks():
+            continue
+        if only and short(b.self_adt or "") not in only:
             continue
         nb += 1
         R.saw(b)
@@ -144,7 +146,7 @@ def r_append(F, R, cat=None):
         bodies = [b for b in F.bodies.values() if b.kind == "Fn" and b.name == "push_symbols"]
         if bodies and any(callee_tag(t.get("callee")) == ("Vec", "pop") for (_, t) in bodies[0].calls()):
             peel_ok(F, R)
-    R.floor("R-APPEND", "write/reserve bodies", nb, 100)
+    R.floor("R-APPEND", "write/reserve bodies", nb, 100 if not only else 5)
     R.extra["effects_on_item_storage_inspected"] = R.extra.get("effects_on_item_storage_inspected", 0) + neff
 
 
@@ -285,3 +287,64 @@ def fmt_facts(facts):
         elif f[0] == "overflow":
             out.append("no-overflow %s" % show(f[1]))
     return out
+
+
+def r_noheap_until_spill(F, R, cat=None):
+    """C19: a two-level container whose first level is heap-free (Stride) must not give its
+    second level any capacity before something spilled: with_capacity builds it empty and reserve
+    touches it only under `!second.is_empty()`"""
+    cat = cat or Catalogue(F)
+    n = 0
+    for (adt, first, second, ib) in two_level(F, cat):
+        fty = [f["ty"]["s"] for f in cat.fields(adt) if f["name"] == first]
+        if not fty or fty[0] != "impls::index::Stride":
+            continue
+        for b in cat.methods(adt, "with_capacity"):
+            n += 1
+            R.saw(b)
+            ctx, effs = cat.effects(b)
+            ok = True
+            why = []
+            from model import constructed, EMPTY_CTORS
+            cons = constructed(ctx, adt)
+            if cons:
+                for (root, fm) in cons:
+                    for o in fm.get(second, ()):
+                        r, p = o
+                        if r[0] == "call":
+                            tag = callee_tag(b.term(r[1]).get("callee"))
+                            if tag not in EMPTY_CTORS:
+                                ok = False
+                                why.append("%s built by %s::%s" % (second, tag[0], tag[1]))
+            else:
+                # returns Self::default() or similar: fine if it is an empty constructor
+                for (r, p) in ctx.org.local(0):
+                    if r[0] == "call":
+                        tag = callee_tag(b.term(r[1]).get("callee"))
+                        if tag not in EMPTY_CTORS:
+                            ok = False
+                            why.append("returns %s::%s" % tag)
+            R.check("R-NOHEAP", b.label(), ok, construct="with_capacity allocates nothing before a spill",
+                    where=b.where(), detail="; ".join(why) or "second level starts empty")
+        for b in cat.methods(adt, "reserve"):
+            n += 1
+            R.saw(b)
+            ctx, effs = cat.effects(b)
+            ok = True
+            why = []
+            for e in effs:
+                if e.cls != "reserve" or e.ctx is not ctx:
+                    continue
+                for (f, rest) in self_field_targets(e, ctx):
+                    if f != second:
+                        continue
+                    facts = facts_at(ctx, e.bb)
+                    guarded = any(ff[0] == "truthy" and ff[2] is False and ff[1][0] == "call" and
+                                  ff[1][1][1] == "is_empty" and ff[1][2] and
+                                  ff[1][2][0] == ("place", b.key, ("arg", 1), ("f:" + second,)) for ff in facts)
+                    if not guarded:
+                        ok = False
+                        why.append("reserve on %s at line %s is not guarded by !%s.is_empty()" % (second, e.line, second))
+            R.check("R-NOHEAP", b.label(), ok, construct="reserve gives the spill list capacity only after a spill",
+                    where=b.where(), detail="; ".join(why) or "guarded")
+    R.floor("R-NOHEAP", "with_capacity/reserve of stride-first containers", n, 2)
